@@ -141,6 +141,8 @@ func checkC12(c *Ctx, r *Report, tier string) {
 	proposerOwnsStructuredFields(c, r, "C12.R5")
 	r.Rule("C12.R8", "an enum of a replicated message that selects an implementation is validated by the creation proposer (an unknown value would leave a nil implementation that panics on first use, on every replica and every replay)", 1)
 	enumSelectsImplementation(c, r, "C12.R8")
+	r.Rule("C12.R9", "a node that has a snapshot can start: log consumers are registered before the group is started (borrowed from C14.R1)", 1)
+	borrow(c, r, "C14", "C14.R1", "C12.R9", "")
 	r.Rule("C12.R6", "no request wedges the server on a mutex: no lock-order cycle between mutex fields, no re-acquisition of a mutex that a caller on the same object may already hold", 2)
 	lockOrderRule(c, r, "C12.R6", newLockWorld(c), nil)
 	r.Rule("C12.R7", "no request makes a goroutine spin or the runtime abort: running minima in the index move only on strict improvement (greedy descent terminates on ties); the metadata map of a stored vertex is never written in place (a concurrent stream.Send of a search result reads it: `concurrent map read and map write` is fatal)", 3)
